@@ -132,6 +132,16 @@ type termPair struct {
 	m    *MTerm
 }
 
+// killPair is a KillOperations call whose authorization step is gated.
+type killPair struct {
+	call       *Call
+	gate       *Gate
+	op         *MOp
+	name, code string
+	returned   bool
+	want       string
+}
+
 // CaseResult is what one executed case reports.
 type CaseResult struct {
 	Steps       []Step
@@ -139,6 +149,7 @@ type CaseResult struct {
 	Divergences []Divergence
 	Ambiguous   string
 	Hang        string
+	LockProbes  int
 	Situations  map[string]int
 	Events      int
 	HandOuts    int
@@ -162,6 +173,7 @@ type Case struct {
 	syncs    map[int]*syncPair // outstanding, by worker index
 	realSync map[string]*syncPair
 	terms    []*termPair
+	gkills   []*killPair
 	lastResp map[int]*syncObs // last response per worker index
 	knownSCQ []scqRef
 	trace    []string
@@ -951,9 +963,37 @@ func (c *Case) compareAll() {
 			return
 		}
 	}
+	for i, kp := range c.gkills {
+		if kp.returned {
+			if !kp.call.Done() {
+				c.diverge("blocked-call-not-woken", []string{"C06"}, "KillOperations %d (%s) should have returned %s after its authorization, but is still blocked", i, kp.name, kp.want)
+				return
+			}
+			if got := errCode(kp.call.Err); got != kp.want {
+				c.diverge("kill-return-differs", []string{"C02"}, "KillOperations %d (%s) returned %v, expected %s", i, kp.name, kp.call.Err, kp.want)
+				return
+			}
+		} else if kp.call.Done() {
+			c.diverge("kill-returned-before-authorization", []string{"C02"}, "KillOperations %d (%s) returned %v while its authorization is still pending", i, kp.name, kp.call.Err)
+			return
+		}
+	}
 	if qp := c.M.QueuedAndParked(); len(qp) > 0 {
 		c.diverge("model-queued-while-parked", []string{"C04"}, "work is queued while undrained workers are parked: %v", qp)
 	}
+}
+
+// openKillGate lets a gated KillOperations finish its authorization.
+func (c *Case) openKillGate(kp *killPair) {
+	if kp.returned {
+		return
+	}
+	kp.gate.Open()
+	if !c.settle() {
+		return
+	}
+	kp.want = c.M.KillAuthorized(kp.op, kp.name, kp.code, "killed by operator "+kp.name)
+	kp.returned = true
 }
 
 // settle waits for quiescence; a hang ends the case.
@@ -1208,6 +1248,27 @@ func (c *Case) doStep(s Step) {
 		want := c.M.KillOperation(s.Name, s.Code, "killed by operator "+s.Name)
 		if errCode(err) != want {
 			c.diverge("kill-return-differs", []string{"C02"}, "KillOperations(%s) returned %v, expected %s", s.Name, err, want)
+		}
+	case "gkill":
+		gate := NewGate()
+		kp := &killPair{gate: gate, name: s.Name, code: s.Code}
+		kp.call = c.Env.KillOperationGated(&buildqueuestate.KillOperationsRequest{
+			Filter: &buildqueuestate.KillOperationsRequest_Filter{Type: &buildqueuestate.KillOperationsRequest_Filter_OperationName{OperationName: s.Name}},
+			Status: statusFor(s.Code, "killed by operator "+s.Name),
+		}, gate)
+		c.gkills = append(c.gkills, kp)
+		if !c.settle() {
+			return
+		}
+		if o, ok := c.M.KillLookup(s.Name); ok {
+			kp.op = o
+		} else {
+			kp.returned, kp.want = true, "NotFound"
+		}
+	case "gkillopen":
+		c.openKillGate(c.gkills[s.T])
+		if c.stop {
+			return
 		}
 	case "killq":
 		q := c.knownSCQ[s.Q]
@@ -1490,6 +1551,45 @@ func (c *Case) genStep() (Step, bool) {
 				s.Name = "no-such-operation"
 			}
 			return s, true
+		case "gkill":
+			// Prefer an operation nobody waits for: it may expire
+			// while the call is parked in its authorization step.
+			var names, abandoned []string
+			for n, o := range c.M.Ops {
+				names = append(names, n)
+				if o.Waiters == 0 {
+					abandoned = append(abandoned, n)
+				}
+			}
+			sort.Strings(names)
+			sort.Strings(abandoned)
+			pending := 0
+			for _, kp := range c.gkills {
+				if !kp.returned {
+					pending++
+				}
+			}
+			if len(names) == 0 || pending >= 2 {
+				continue
+			}
+			s := Step{K: "gkill", Code: pick(rng, []string{"Aborted", "ResourceExhausted"})}
+			if len(abandoned) > 0 && rng.IntN(3) > 0 {
+				s.Name = pick(rng, abandoned)
+			} else {
+				s.Name = pick(rng, names)
+			}
+			return s, true
+		case "gkillopen":
+			var l []int
+			for i, kp := range c.gkills {
+				if !kp.returned {
+					l = append(l, i)
+				}
+			}
+			if len(l) == 0 {
+				continue
+			}
+			return Step{K: "gkillopen", T: pick(rng, l)}, true
 		case "killq":
 			return Step{K: "killq", Q: rng.IntN(len(c.knownSCQ)), Code: "Aborted"}, true
 		case "drain+":
@@ -1649,6 +1749,10 @@ func (c *Case) finish() {
 	for _, tp := range c.terms {
 		tp.call.Cancel()
 	}
+	for _, kp := range c.gkills {
+		kp.gate.Open()
+		kp.call.Cancel()
+	}
 	if c.res.Hang == "" {
 		c.Env.Settle(5 * time.Second)
 	}
@@ -1674,6 +1778,20 @@ func (c *Case) finish() {
 // checkHook runs the structural invariant walk of the implementation and
 // compares its object counts with the model.
 func (c *Case) checkHook(final bool) {
+	// All tracked calls are parked or have returned: nobody may hold the
+	// scheduler's lock now (a leaked lock would also block the hook).
+	free := false
+	for i := 0; i < 200 && !free; i++ {
+		if free = c.Env.BQ.VerifLockIsFree(); !free {
+			time.Sleep(time.Millisecond)
+		}
+	}
+	if !free {
+		c.diverge("scheduler-lock-held-at-quiescence", []string{"C14", "C06"}, "every call is parked or has returned, but the scheduler's lock is still held")
+		c.stop = true
+		return
+	}
+	c.res.LockProbes++
 	counts, problems := c.Env.BQ.VerifCheckInvariants()
 	c.res.HookCalls++
 	for _, p := range problems {
@@ -2024,6 +2142,19 @@ func (c *Case) crossCheckLists() {
 
 // leakPhase: everybody goes away; after all timeouts nothing may remain.
 func (c *Case) leakPhase() {
+	for _, kp := range c.gkills {
+		if !kp.returned {
+			c.openKillGate(kp)
+			if c.stop {
+				return
+			}
+			c.M.Propagate()
+			c.compareAll()
+			if c.stop {
+				return
+			}
+		}
+	}
 	for _, sp := range c.streams {
 		if sp.gate != nil {
 			sp.gate.Open()
